@@ -107,7 +107,15 @@ func SchedulePromises(config *system.Config, tags map[string]string) gocoro.Coro
 				continue
 			}
 
-			if completion.Store.Results[0].CreatePromise.RowsAffected == 0 {
+			var rowsAffected int64
+			if result := completion.Store.Results[0]; result.Kind == t_aio.CreatePromiseAndTask {
+				// the promise tags route: the promise was created together with its task
+				rowsAffected = result.CreatePromiseAndTask.PromiseRowsAffected
+			} else {
+				rowsAffected = result.CreatePromise.RowsAffected
+			}
+
+			if rowsAffected == 0 {
 				slog.Warn("promise to be scheduled already exists", "promise", commands[i].Id, "schedule", result.Records[i].Id)
 			}
 		}
